@@ -98,6 +98,18 @@ def family():
         "Choices": {"type": "array", "items": {"anyOf": [obj(row={"type": "number"}), {"type": "string", "enum": ["e1", "e2"]}, ref("Later")]}},
         "Owner": obj(c=ref("Choice"), cs=ref("Choices"))},
         paths={"/c": {"get": {"operationId": "getC", "responses": jr("Owner")}}})
+    # one model as the body of several operations under different media types (the class is registered once per use)
+    body = lambda m: {"required": True, "content": {m: {"schema": ref("Form")}}}  # noqa: E731
+    F["shared-body-model"] = gen.base_doc({"Form": obj(title={"type": "string"}, n={"type": "integer"})}, paths={
+        "/multi": {"post": {"operationId": "sendMulti", "requestBody": body("multipart/form-data"), "responses": {"204": {"description": "n"}}}},
+        "/json": {"post": {"operationId": "sendJson", "requestBody": body("application/json"), "responses": {"204": {"description": "n"}}}},
+        "/form": {"put": {"operationId": "sendForm", "requestBody": body("application/x-www-form-urlencoded"), "responses": jr("Form")}}})
+    # siblings that re-declare the same inherited property differently (default / description / requiredness)
+    F["allof-siblings-redeclare"] = gen.base_doc({
+        "Shape": {"type": "object", "properties": {"kind": {"type": "string"}, "area": {"type": "number"}}},
+        "Circle": {"allOf": [ref("Shape"), {"type": "object", "properties": {"kind": {"type": "string", "default": "circle", "description": "always circle"}, "r": {"type": "number"}}}]},
+        "Square": {"allOf": [ref("Shape"), {"type": "object", "required": ["kind"], "properties": {"kind": {"type": "string", "default": "square", "description": "always square"}, "side": {"type": "number"}}}]},
+        "Blob": {"allOf": [ref("Shape"), {"type": "object", "properties": {"area": {"type": "integer", "default": 0}}}]}})
     out = {}
     for k, v in F.items():
         out[k] = v if isinstance(v, tuple) else (v, {})
